@@ -82,11 +82,20 @@ manifest = {
          "serves_properties": ["C04", "C05", "C06", "C09", "C10", "C14"],
          "kind_free_text": "declaration interception and exact Fraction unit sizes; QF_LRA potential-"
                            "feasibility query over all declarations (Farkas) with unsat cores"},
+        {"name": "robust", "path": "engine/robust.py",
+         "serves_properties": ["C%02d" % i for i in range(1, 21)],
+         "kind_free_text": "what happens after a solver says `unknown`: the query is re-asked as its real "
+                           "relaxation (only `unsat` transfers) and in fresh z3 contexts with other seeds and "
+                           "budgets before the obligation is counted inconclusive; reported per run under "
+                           "coverage.solver_escalations"},
     ],
     "checks": checks,
     "not_applicable": na,
     "notes": "Exit codes: 0 held (KNOWN-FINDING lines possible), 1 VIOLATION, 3 harness error "
-             "(never a verdict). Known findings: /verif/known_findings.json.",
+             "(never a verdict). Known findings: /verif/known_findings.json. A check that claims level "
+             "'proof' writes a proof-level evidence record only from a run in which every obligation "
+             "was discharged; a run that leaves one undecided records itself at level 'other' "
+             "(coverage.level_note).",
 }
 with open(os.path.join(ROOT, "MANIFEST.json"), "w") as f:
     json.dump(manifest, f, indent=1)
